@@ -93,6 +93,7 @@ type Exec struct {
 	panicSite       string
 	abortSite       string
 	haltMsg         string
+	blobLen         int
 	decTerms        []*sym.Term
 	lastRecoverSite string
 	recovered       []string
